@@ -28,7 +28,7 @@ def record_errors(cfg, u, x, logl, blobs, want_blobs):
         if not np.array_equal(xi, x[i]):
             errs.append(("x", i, f"x={x[i].tolist()} but prior_transform(u)={np.asarray(xi).tolist()}"))
             continue
-        li = f(x[i]) + cfg["shift"]
+        li = f(x[i]) * (cfg.get("ll_kwargs") or {}).get("scale", 1.0) + ((cfg.get("ll_args") or [0.0])[0]) + cfg["shift"]
         if not (li == logl[i]):
             errs.append(("logl", i, f"logl={logl[i]!r} but likelihood(x)={li!r}"))
         if want_blobs:
